@@ -116,9 +116,10 @@ Inductive edit :=
 
 Inductive c14case :=
 (* selector (canonical JSON), envelope bytes written by the harness's own
-   mirror struct, what ResultsPage::new did (token or status; 0 = panic), and
-   what happened to the issued token on the way back *)
-| CIssue (sel : str) (env : list N) (obs : res N str) (back : tok_obs)
+   mirror struct (None: serde_json cannot serialise this selector), what
+   ResultsPage::new did (token or status; 0 = panic), and what happened to the
+   issued token on the way back *)
+| CIssue (sel : str) (env : option (list N)) (obs : res N str) (back : tok_obs)
 | CAccept (tok : str) (ti : tokinfo) (obs : tok_obs)
 | CGrid (base : str) (rows : list (edit * option N * env_oracle * tok_obs))
 | CQuery (kvs : list (str * str)) (ti : tokinfo) (obs : qobs)
@@ -385,15 +386,15 @@ Definition judge_live (kvs : list (str * str)) (ti : tokinfo) (marker n : N) (ob
   if live_obs_eqb (model_live kvs ti marker n) obs then V_AGREE else V_DIVERGE.
 
 (* ---------- issue ---------- *)
-Definition judge_issue (sel : str) (env : list N) (obs : res N str) (back : tok_obs) : N :=
-  if negb (bytes_ok env) then V_MALFORMED else
+Definition judge_issue (sel : str) (env : option (list N)) (obs : res N str) (back : tok_obs) : N :=
+  if negb (match env with Some bs => bytes_ok bs | None => true end) then V_MALFORMED else
   (* spec: an issued token is accepted back and yields the same selector *)
   let spec := match obs with
               | Ok _ => match back with TAccept s => str_eqb s sel | _ => false end
               | Err _ => true
               end in
   if negb spec then V_VIOLATION else
-  match serialize str (fun _ => Some env) sel, obs with
+  match serialize str (fun _ => env) sel, obs with
   | Ok t, Ok t' => if str_eqb t t' then V_AGREE else V_DIVERGE
   | Err e, Err c => if status_of e =? c then V_AGREE else V_DIVERGE
   | _, _ => V_DIVERGE
